@@ -194,6 +194,13 @@ def gen_case(rng, tier):
                         spec['up'] = None
             specs.append(spec)
             iid += 1
+    if rng.random() < 0.5:
+        # several connection-level frames (metadata-push) queued in one go: stream 0 is ordered too
+        side = rng.choice('cs')
+        for _ in range(rng.choice([2, 3, 4])):
+            specs.append({'iid': iid, 'side': side, 'model': 'push', 'start': ('none',),
+                          'req': (0, 8 + rng.choice([0, 5, 40]))})
+            iid += 1
     if not specs:
         return gen_case(rng, tier)
     return cfg, specs
